@@ -400,6 +400,21 @@ func (w *world) exec(op Op) (res result) {
 			w.sk.Jail(ctx, w.cons[op.V])
 			return nil
 		case "unjail":
+			// as through x/slashing MsgUnjail: its checks on the staking side, then staking Unjail
+			v, found := w.sk.GetValidator(ctx, w.vals[op.V])
+			if !found {
+				return fmt.Errorf("validator does not exist")
+			}
+			self, found := w.sk.GetDelegation(ctx, sdk.AccAddress(w.vals[op.V]), w.vals[op.V])
+			if !found {
+				return fmt.Errorf("validator has no self-delegation; cannot be unjailed")
+			}
+			if v.TokensFromShares(self.GetShares()).TruncateInt().LT(v.MinSelfDelegation) {
+				return fmt.Errorf("validator's self delegation less than minimum; cannot be unjailed")
+			}
+			if !v.IsJailed() {
+				return fmt.Errorf("validator not jailed; cannot be unjailed")
+			}
 			w.sk.Unjail(ctx, w.cons[op.V])
 			return nil
 		case "mint":
